@@ -106,6 +106,21 @@ func randomBatch(c *Ctx, small bool) []requests.SigningTask {
 	return ts
 }
 
+// c03Special: proposals a generator rarely draws - an explicit EMPTY payload (with and without stray
+// range fields), a payload next to range fields, and one identifier filed twice (explicit and baked,
+// both orders; two explicit ones)
+func c03Special() [][]requests.SigningTask {
+	lines := strings.Split(wc_rotation.ValidatorsIndexes, "\n")
+	return [][]requests.SigningTask{
+		{{MessageID: "e1", File: "empty.txt", Payload: []byte{}}},
+		{{MessageID: "e2", File: "empty with range.txt", Payload: []byte{}, RangeStart: 5, RangeEnd: 7}},
+		{{MessageID: "e3", File: "f", Payload: []byte("x"), RangeStart: 3, RangeEnd: 5}, {MessageID: "r3", RangeStart: 9, RangeEnd: 10}},
+		{{MessageID: lines[0], File: "note.txt", Payload: []byte("explicit payload filed under a validator index")}, {MessageID: "r", RangeStart: 0, RangeEnd: 2}},
+		{{MessageID: "r", RangeStart: 0, RangeEnd: 2}, {MessageID: lines[1], File: "note", Payload: []byte("a later explicit payload")}},
+		{{MessageID: "d", File: "a", Payload: []byte("one")}, {MessageID: "d", File: "b", Payload: []byte("two")}},
+	}
+}
+
 func scenarioC03(c *Ctx) {
 	fail := func(kind, what string, rep map[string]interface{}) {
 		c.Fail(Failure{Property: "C03", Kind: kind, Signature: map[string]interface{}{"kind": kind}, What: what, Replay: rep})
@@ -116,13 +131,28 @@ func scenarioC03(c *Ctx) {
 		nb = 3000
 	}
 	for b := 0; b < nb; b++ {
-		ts := randomBatch(c, false)
-		// what a participant receives is the JSON round trip of the proposal
-		bz, _ := json.Marshal(ts)
+		var ts []requests.SigningTask
+		if b < len(c03Special()) {
+			ts = c03Special()[b]
+		} else {
+			ts = randomBatch(c, false)
+		}
+		// what a participant receives is the proposal as it stands on the board (every field spelled out)
+		bz := boardTasksJSON(ts)
 		var back []requests.SigningTask
 		json.Unmarshal(bz, &back)
 		obs, ms := expandObs(back)
 		c.Case("expand", true, tasksLine(back), obs)
+		// the coordinator hands the airgapped machine its own re-marshalled copy of the decoded list
+		// (SrcPayload): that copy must expand to the same messages
+		if rz, err := json.Marshal(back); err == nil {
+			var again []requests.SigningTask
+			if json.Unmarshal(rz, &again) == nil {
+				if obs2, _ := expandObs(again); obs2 != obs {
+					fail("remarshal-changes-expansion", "the list re-marshalled for the airgapped machine expands to other messages than the proposal on the board", map[string]interface{}{"tasks": string(bz), "board": obs, "remarshalled": obs2})
+				}
+			}
+		}
 		if obs == "tasks panic" {
 			fail("expansion-panic", "expanding a proposal panics", map[string]interface{}{"tasks": string(bz)})
 			continue
@@ -177,14 +207,20 @@ func scenarioC03(c *Ctx) {
 	if !c.Quick() {
 		nbatches = 40
 	}
+	nbatches += len(c03Special())
 	for b := 0; b < nbatches; b++ {
-		ts := randomBatch(c, true)
+		var ts []requests.SigningTask
+		if b < len(c03Special()) {
+			ts = c03Special()[b]
+		} else {
+			ts = randomBatch(c, true)
+		}
 		batch := fmt.Sprintf("batch-c03-%d", b)
 		// the proposal is what is on the board: the JSON form (invalid UTF-8 in a file name is already
 		// replaced there by encoding/json)
-		if bz, err := json.Marshal(ts); err == nil {
+		{
 			var back []requests.SigningTask
-			if json.Unmarshal(bz, &back) == nil {
+			if json.Unmarshal(boardTasksJSON(ts), &back) == nil {
 				ts = back
 			}
 		}
